@@ -6,6 +6,7 @@ import Mimium.Proofs.FlatTreeVisits
 import Mimium.Proofs.PublishOk
 import Mimium.Proofs.PublishPrune
 import Mimium.Proofs.PublishMono
+import Mimium.Proofs.PublishZ
 /-!
 # C05 — compile-time state layout matches run-time state accesses
 
@@ -530,17 +531,67 @@ theorem C05_published_state_effect_is_tree_ops (n : Nat) (P : Prog) (rt : Rt) (f
     ∃ ps, PayShapeL seg ps ∧ st' = (treeCells seg ps st).1 :=
   C05_eval_state_effect_is_tree_ops P rt fuel e seg env σ st v σ' st' (C05_publish_visits n P e seg harms hpub).1 h
 
+/-- the wider class contains the narrow one -/
+theorem C05_wider_class (n : Nat) (P : Prog) (e : Expr) (h : noStateInArmsN n P e = true) :
+    noStatefulInArmsN n P e = true := noStatefulInArmsN_of_noStateInArmsN n P e h
+
+/-- **the same for the wider class: calls of functions WITHOUT state inside `if` arms allowed** (the class of the
+generator's `avoid_f3` profiles: no `mem`, `delay` or call of a function with state inside an `if` arm, here and in the
+callees).  The reference semantics creates a (stateless) child node at such a call site only when its arm runs, so the
+tree after the sample and the tree `treeNode` computes may differ at sites the layout does not own; their FLAT IMAGES are
+equal, which is all the flat machine sees: one sample of any function instance in the reference semantics and the state
+instructions of the call on the flat storage laid out by the published layout commute with `serialize`; accesses exactly
+those the published skeleton prescribes, in bounds, cursor restored, next tree conforming again.  (Proof: frame property of
+`eval` — an expression changes the state node only at its own sites —, the per-site tree operations respect agreement on
+the layout's cells, visiting stateless cells is the identity up to that agreement; induction on the fuel over all 18
+constructs.) -/
+theorem C05_published_instance_is_flat_call_stateless_arms (fuel n : Nat) (P : Prog) (d : FnDecl) (lay : LNode)
+    (rt : Rt) (env : Env) (σ : Store) (st : SNode) (v : Val) (σ' : Store) (st1 : SNode)
+    (hpub : publishFnN n P d = some lay)
+    (harms : noStatefulInArmsN n P d.body = true) (hs : SitesUnique P) (hd : SitesOk d.body)
+    (hc : Conforms lay st)
+    (h : eval fuel P rt env d.body σ (initSelf d.selfShape st) = .ok (v, σ', st1)) :
+    ∃ ps, PayShapeL lay.cells ps ∧
+      serialize lay (finSelf d.selfShape st1 v) = serialize lay (treeNode lay ⟨v, ps⟩ st).1 ∧
+      (NPayOk lay ⟨v, ps⟩ → ∀ pre post : List UInt64,
+        vmRun ⟨pre.length, pre ++ serialize lay st ++ post⟩ (flatNode lay ⟨v, ps⟩) =
+          some (⟨pre.length, pre ++ serialize lay (finSelf d.selfShape st1 v) ++ post⟩, (treeNode lay ⟨v, ps⟩ st).2) ∧
+        accessesOf pre.length (flatNode lay ⟨v, ps⟩) = expectedTrace (publishedSk lay) pre.length ∧
+        (∀ a ∈ expectedTrace (publishedSk lay) pre.length,
+          pre.length ≤ a.pos ∧ a.pos + a.size ≤ pre.length + (publishedSk lay).size) ∧
+        (serialize lay st).length = (publishedSk lay).size ∧
+        Conforms lay (finSelf d.selfShape st1 v)) := by
+  obtain ⟨hself, hcells⟩ := publishFnN_inv hpub
+  obtain ⟨hvis, hjunk⟩ := publishEN_visitsZ n P d.body lay.cells hs hd harms hcells
+  have hl := C05_publish_ok n P d lay hs hd hpub
+  rw [← hself] at h ⊢
+  obtain ⟨ps, hp, hsame⟩ := (eval_visitsZ P rt fuel).1 d.body lay.cells _ lay.cells env σ _ v σ' st1 hl (fun _ hm => hm)
+    hjunk hvis h
+  have hsame' : SameN lay.cells (finSelf lay.self st1 v) (treeNode lay ⟨v, ps⟩ st).1 := by
+    have := same_finSelf lay.self lay.cells _ _ v hsame
+    simpa [treeNode, treeNodeWith_fst] using this
+  have hser := serialize_same lay _ _ hsame'
+  obtain ⟨hwf, hsz, htr⟩ := publishedSk_spec lay
+  refine ⟨ps, hp, hser, fun hpay pre post => ?_⟩
+  obtain ⟨hacc, _, hrun, hconf⟩ := C05_flat_eq_tree lay ⟨v, ps⟩ st pre post hl hc hpay
+  refine ⟨by rw [hser]; exact hrun, by rw [htr]; exact hacc, C05_expected_in_bounds (publishedSk lay) pre.length hwf,
+    by rw [hsz]; exact C05_serialize_size lay st hc, conforms_same lay _ _ hsame'.symm hconf⟩
+
 /-- `publishFn` / `publishE` / `noStateInArms` are the instances at depth `|P.fns|` -/
 theorem C05_publishFn_is_depth_instance (P : Prog) (d : FnDecl) (e : Expr) :
     publishFn P d = publishFnN P.fns.length P d ∧ publishE P e = publishEN P.fns.length P e ∧
-    noStateInArms P e = noStateInArmsN P.fns.length P e := ⟨rfl, rfl, rfl⟩
+    noStateInArms P e = noStateInArmsN P.fns.length P e ∧
+    noStatefulInArms P e = noStatefulInArmsN P.fns.length P e := ⟨rfl, rfl, rfl, rfl⟩
 
 /-- **the call depth is irrelevant once it suffices**: a layout computed at depth `n` is the layout at every depth
 `m ≥ n`, and membership in the class persists (so the theorems above, stated for every `n`, speak about one layout) -/
 theorem C05_publish_depth_irrelevant (P : Prog) (n m : Nat) (hnm : n ≤ m) :
     (∀ d lay, publishFnN n P d = some lay → publishFnN m P d = some lay) ∧
     (∀ e seg, publishEN n P e = some seg → publishEN m P e = some seg) ∧
-    (∀ e, noStateInArmsN n P e = true → noStateInArmsN m P e = true) := publish_depth_mono P n m hnm
+    (∀ e, noStateInArmsN n P e = true → noStateInArmsN m P e = true) ∧
+    (∀ e, noStatefulInArmsN n P e = true → noStatefulInArmsN m P e = true) :=
+  have h := publish_depth_mono P n m hnm
+  ⟨h.1, h.2.1, h.2.2, noStatefulInArmsN_mono P n m hnm⟩
 
 /-! non-vacuity of the five theorems above.  `f(y) = mem(y)`, `g(y) = y*2` (no state), `c() = self + g(1)` and
 `dsp(x) = self + mem(x) + f(delay(3, x, 1)) + g(c()) + (if x then (|q| mem(q))(1) else 2)` with a one-word tuple `self`:
@@ -567,6 +618,26 @@ example :
   · intro d hd
     simp only [P, List.mem_cons, List.not_mem_nil, or_false] at hd
     rcases hd with rfl | rfl | rfl <;> simp [SitesOk, siteLens, siteLensL, fF, gF, cF]
+  · simp [SitesOk, siteLens, siteLensL, dspF]
+
+/-! non-vacuity of `C05_published_instance_is_flat_call_stateless_arms`: `g(y) = y*2`, `h(y) = if y then g(y) else 3`,
+`dsp(x) = mem(x) + (if x then h(x) else g(1) + g(2))`: outside the narrow class, inside the wide one; the labelled layout
+lists the (zero-sized) cells of the `then` arm only, the bare skeleton is `F[M1]` -/
+example :
+    let gF : FnDecl := ⟨"g", ["y"], .bin .mul (.var "y") (.lit 2), none⟩
+    let hF : FnDecl := ⟨"h", ["y"], .ite (.var "y") (.call "g" [.var "y"] 0) (.lit 3), none⟩
+    let dspF : FnDecl := ⟨"dsp", ["x"],
+      .bin .add (.mem (.var "x") 0)
+        (.ite (.var "x") (.call "h" [.var "x"] 1) (.bin .add (.call "g" [.lit 1] 2) (.call "g" [.lit 2] 3))), none⟩
+    let P : Prog := ⟨[], [gF, hF], dspF⟩
+    let lay : LNode := ⟨none, [.mem 0, .child 1 none [.child 0 none []]]⟩
+    publishFn P dspF = some lay ∧ noStateInArms P dspF.body = false ∧ noStatefulInArms P dspF.body = true ∧
+    SitesUnique P ∧ SitesOk dspF.body ∧ publishedSk lay = .fn [.mem 1] := by
+  intro gF hF dspF P lay
+  refine ⟨rfl, rfl, rfl, ?_, ?_, rfl⟩
+  · intro d hd
+    simp only [P, List.mem_cons, List.not_mem_nil, or_false] at hd
+    rcases hd with rfl | rfl <;> simp [SitesOk, siteLens, siteLensL, gF, hF]
   · simp [SitesOk, siteLens, siteLensL, dspF]
 
 /-- **outside the class the layout is not visited (finding F3, model level).**  `counter() = self + 1`,
